@@ -69,7 +69,7 @@ CFG = {
         "build tag, VerifYieldHook with it) after a remover's marking, after an adder's validation, before fullyLinked, in randomLevel "
         "between load and CAS, on the found-node paths of readers and updaters, and (7, 8, added in round 7 after seed C04-16 was missed) between an insert's publication / a delete's unlinking and the update of the atomic length counter, i.e. the window in which the counter lags the contents. The harness uses them for SCRIPTED schedules (an "
         "operation parked inside a window while the others run against it: 15 map + 10 set scenarios x 4 comparator variants, each a "
-        "tiny history judged by lin_check/range_ok_b -- deterministic) and, in a quarter of the random rounds, to reschedule at one "
+        "tiny history judged by lin_check/range_ok_b -- deterministic; plus, per variant, one map and one set script that SAMPLE Len() and the number of keys Range reports while calls are parked at points 7 / 8, judged against the counter protocol model C04/LenCounter.v: counter = keys - published-not-counted + removed-not-discounted in every reachable state (C04_len_counter_invariant), hence Len = number of keys when nothing is in flight (C04_len_quiescent), while in flight it reads 0 with a key present and can be negative (C04_len_zero_not_empty_refuted: why a reader must not consult it, seed C04-16)) and, in a quarter of the random rounds, to reschedule at one "
         "point in eight. The random rounds are additionally perturbed from outside (GOMAXPROCS cycling "
         "1/2/4/16, a spinning per-operation barrier that releases all goroutines together in 3 of 4 rounds, seeded "
         "runtime.Gosched()/busy spins between operations, busy co-runners, and a second run of the concurrent harness built with "
@@ -101,7 +101,9 @@ CFG = {
                                 "C04_lazymap_lock_owner", "C04_lazymap_value_write", "C04_lazymap_marked_frozen",
                                 "C04_lazymap_lad_returns_marked_value", "C04_lazymap_store_visible",
                                 "C04_lazymap_prerepair_refuted", "C04_lazymap_prerepair_history_rejected",
-                                "C04_lazymap_linearizable", "C04_lazymap_lazy_once"])],
+                                "C04_lazymap_linearizable", "C04_lazymap_lazy_once"]),
+                 ("C04.PropsLen", ["C04_len_counter_invariant", "C04_len_quiescent", "C04_len_lag_bounds",
+                                   "C04_len_zero_not_empty_refuted", "C04_len_lag_code"])],
     "trusted": [
         "height oracle: node heights are premises of the refinement theorems (>= 1, what randomLevel() returns); the harness "
         "injects them through the reassignable fastrand.Uint32 and reads them back through the verif accessor VerifShape",
